@@ -89,8 +89,8 @@ static Verdict c05_check(const KV &c0, Ctx &ctx) {
 // ---- C05 exhaustive byte grid ---------------------------------------------------------
 static const char *const C05_BASES[][3] = {
   // one cheap base per method first (quick tier), two more for the thorough tier
-  {"$y$j75$saltSALTsalt.$", "$y$/6/$AbCdEfGh", "$y$j7/1.$ZZ0/aa$k0JbEJ5fA2WnPKYgk0k1kdNMeX2oQQn8vCSHmVzDyw5"},
-  {"$gy$j75$saltSALTsalt.$", "$gy$/6/$AbCdEfGh", "$gy$j7/1.$ZZ0/aa$k0JbEJ5fA2WnPKYgk0k1kdNMeX2oQQn8vCSHmVzDyw5"},
+  {"$y$j75$n34PoBLMgF5$", "$y$/6/$C3qEg/", "$y$j7/1.$k2XAnEHBqQ1Ct2aM$k0JbEJ5fA2WnPKYgk0k1kdNMeX2oQQn8vCSHmVzDyw5"},
+  {"$gy$j75$n34PoBLMgF5$", "$gy$/6/$C3qEg/", "$gy$j7/1.$k2XAnEHBqQ1Ct2aM$k0JbEJ5fA2WnPKYgk0k1kdNMeX2oQQn8vCSHmVzDyw5"},
   {"$7$40..../....saltsalt$", "$7$5/..../....x", "$7$6/..../....SodiumChloride$rQQn8vCSHmVzDyw5k0JbEJ5fA2WnPKYgk0k1kdNMeX2"},
   {"$2b$04$abcdefghijklmnopqrstuu", "$2b$04$UBVLHeMpJ/QQCv3XqJx8zO", "$2b$04$abcdefghijklmnopqrstuui1D709vfamulimlGcq0qq3UvuUasvEa"},
   {"$2y$04$abcdefghijklmnopqrstuu", "$2y$04$UBVLHeMpJ/QQCv3XqJx8zO", "$2y$04$abcdefghijklmnopqrstuui1D709vfamulimlGcq0qq3UvuUasvEa"},
